@@ -588,7 +588,7 @@ def run(ctx):
     report(recipes, traces, fails, ctx)
     # 6. binding self-test
     failed = set(i for (i, l, c) in fails)
-    ctx.extra["binding_selftest"] = selftest(recipes, traces, failed, R.table())
+    ctx.selftest(selftest, recipes, traces, failed, R.table())
     kinds = {}
     for sp in recipes:
         kinds[sp["kind"]] = kinds.get(sp["kind"], 0) + 1
